@@ -1157,3 +1157,34 @@ def subst(t, mapping, depth=0):
         else:
             out.append(c)
     return tuple(out)
+
+
+def _root_local(self, op):
+    """the plain local an operand ultimately denotes, looking through copies, `&local`, `&*ref` re-borrows"""
+    pl = op.get("copy") or op.get("move") if isinstance(op, dict) and ("copy" in op or "move" in op) else op
+    seen = set()
+    while pl is not None and pl["l"] not in seen:
+        if pl["proj"] and pl["proj"] != ["deref"]:
+            return None
+        l = pl["l"]
+        seen.add(l)
+        ds = self.defs().get(l, [])
+        if len(ds) == 1 and ds[0][0] == "stmt":
+            rv = self.blocks[ds[0][1]]["stmts"][ds[0][2]]["rv"]
+            if "use" in rv:
+                nxt = rv["use"].get("copy") or rv["use"].get("move")
+                if nxt is not None and (not nxt["proj"] or nxt["proj"] == ["deref"]):
+                    pl = nxt
+                    continue
+            if "ref" in rv:
+                r = rv["ref"]
+                if not r["proj"]:
+                    return r["l"]
+                if r["proj"] == ["deref"]:
+                    pl = r
+                    continue
+        return l if not pl["proj"] else None
+    return None
+
+
+Body.root_local = _root_local
